@@ -437,9 +437,17 @@ func ZZH_C12_CustomSizeAtBound() {
 	zzvAssume(d.SetPageSettings(s) == nil)
 	edge := zzvOr(zzvOr(s.CustomWidth < 12.71, s.CustomWidth > 558.79), zzvOr(s.CustomHeight < 12.71, s.CustomHeight > 558.79))
 	if edge {
-		zzvKnown("KF-C12-custom-bound", "boundary custom size:")
+		zzvKnown("KF-C12-custom-bound", "boundary custom size")
 	}
-	zzvAssert(d.SetGutterWidth(zzvFloatIn(0, 100)) == nil, "boundary custom size: a valid setter call on a valid custom page is accepted")
+	// the defect needs a size within half a twip (0.0088 mm) of the bound; the rest of the 0.01 mm
+	// band is the fringe where the real-number float model cannot tell (its counterexamples there
+	// need not replay) - two clauses so that the core of the region is confirmed on its own
+	ok := d.SetGutterWidth(zzvFloatIn(0, 100)) == nil
+	if s.CustomWidth < 12.704 {
+		zzvAssert(ok, "boundary custom size (within 0.004 mm of the lower bound): a valid setter call on a valid custom page is accepted")
+	} else {
+		zzvAssert(ok, "boundary custom size: a valid setter call on a valid custom page is accepted")
+	}
 	if !edge {
 		zzvReach("inside")
 	}
